@@ -16,7 +16,8 @@ from vf.worker import exc_sig
 LEVEL = "exploration"
 RULE = ("request sequences (flatten/casadi/sympy/xml x class) on one parsed tree over (a) every class of every "
         "test/models/*.mo that exists, (b) generated libraries with class-typed components, connectors, extends "
-        "and type aliases, (c) compiler CLI invocations with several -m; quick: all ordered pairs per file incl. "
+        "and type aliases, package libraries (constants, functions, imports) and feature libraries (equal short names in "
+        "different packages, class redeclaration, extends chains, deep modifications), (c) compiler CLI invocations with several -m; quick: all ordered pairs per file incl. "
         "A=A plus random triples, thorough: random sequences of length 3-6; distinct = digest of (text, request "
         "sequence); non-trivial = sequence of >=2 requests where at least one request succeeds on a fresh parse")
 ASSUMPTIONS = ["results are compared through a canonical projection that ignores parent links and import memoisation",
@@ -224,6 +225,53 @@ def package_libs(rng, count):
         yield L
 
 
+def feature_libs(rng, count):
+    """libraries with constructs the reference flattener of mlib does not model (the oracle here is the fresh parse,
+    so none is needed): equal short class names in different packages (a type derived from a builtin and a model
+    with an extends clause), class redeclaration of a class that holds a modified sub-component, extends chains of
+    length >= 2 reached both from the top level and from a nested component, deep dotted/nested modifications."""
+    for k in range(count):
+        parts, classes, tags = [], [], set()
+        a, b, c, d = (rng.randint(2, 30) for _ in range(4))
+        nm = rng.choice(["Level", "Gauge", "Flow"])
+        picks = [x for x in ("clash", "redeclare", "chain", "deepmod") if rng.random() < 0.6] or ["clash", "redeclare"]
+        if "clash" in picks:
+            parts.append("package Units\n  type %s = Real(unit = \"m\", min = 0);\nend Units;\n" % nm)
+            parts.append("package Sensors\n  partial model Sensor\n    Real signal;\n  end Sensor;\n  model %s\n    extends Sensor;\n"
+                         "    Real h(nominal = %d);\n  equation\n    signal = %d * h;\n  end %s;\nend Sensors;\n" % (nm, a, b, nm))
+            parts.append("model Tank\n  Units.%s l;\n  Real q;\nequation\n  der(l) = q;\nend Tank;\nmodel Plant\n  Tank t(l = %d, q = 1);\nend Plant;\n"
+                         "model Probe\n  Sensors.%s s;\nend Probe;\nmodel Rig\n  Probe r(%s);\nend Rig;\n" % (
+                             nm, c, nm, rng.choice(["s.h.start = %d" % d, "s(h(start = %d))" % d, "s.h(start = %d)" % d])))
+            classes += ["Tank", "Plant", "Probe", "Rig", "Sensors." + nm]
+            tags.add("same-short-name-for-builtin-type-and-model")
+        if "redeclare" in picks:
+            parts.append("model Element\n  parameter Real gain = 1;\n  Real u;\n  Real y;\nequation\n  y = gain * u;\nend Element;\n"
+                         "model Idle\n  Real out;\nequation\n  out = 0;\nend Idle;\n"
+                         "model Heater\n  Real out(start = %d);\n  Element e(gain = %d);\nequation\n  e.u = 1;\n  out = e.y;\nend Heater;\n"
+                         "model Loop\n  replaceable model Source = Idle;\n  Source s;\nend Loop;\n"
+                         "model System\n  Loop l(redeclare model Source = Heater);\nend System;\nmodel Lab\n  Heater h;\nend Lab;\n" % (a, b))
+            classes += ["Element", "Heater", "Loop", "System", "Lab"]
+            tags.add("class-redeclaration-of-class-with-modified-component")
+        if "chain" in picks:
+            parts.append("model G0\n  input Real u;\n  output Real y;\n  Real w(start = %d);\nequation\n  y = %d * u;\n  w = u;\nend G0;\n"
+                         "model F0\n  extends G0;\nend F0;\nmodel E0\n  extends F0(w(start = %d));\n  Real z;\nequation\n  z = y;\nend E0;\n"
+                         "model UsesNested\n  E0 a;\n  Real s;\nequation\n  s = a.y;\n  a.u = 1;\nend UsesNested;\n"
+                         "model TopChain\n  extends F0;\n  E0 inner0;\nequation\n  inner0.u = u;\nend TopChain;\n" % (a, b, c))
+            classes += ["G0", "F0", "E0", "UsesNested", "TopChain"]
+            tags.add("extends-chain-at-top-level-and-nested")
+        if "deepmod" in picks:
+            parts.append("model A3\n  parameter Real p = %d;\n  Real x(start = 1);\nequation\n  der(x) = -p * x;\nend A3;\n"
+                         "model B3\n  parameter Real p = %d;\n  A3 a;\nend B3;\n"
+                         "model C3\n  parameter Real p = %d;\n  B3 b(%s);\nend C3;\nmodel D3\n  C3 c(p = %d);\n  B3 b2(a(p = 7));\nend D3;\n" % (
+                             a, b, c, rng.choice(["a.x.start = 3 * p", "a(x(start = 3 * p))", "a.x(start = 3 * p)"]), d))
+            classes += ["A3", "B3", "C3", "D3"]
+            tags.add("deep-modification-with-name-in-several-scopes")
+        L = Lib("feature-library-%d" % k, ["".join(parts)])
+        L.classes = classes
+        L.tags = tags
+        yield L
+
+
 def cli_check(ctx, lib, models, k):
     """main(-m A -m B) must count like main(-m A) + main(-m B) (no file-level errors here)."""
     import tools.compiler as comp
@@ -371,6 +419,18 @@ def run_shard(ctx):
         ctx.case({"t": lib.texts, "s": seq}, bool(ok), None)
         for t in lib.tags:
             ctx.cover("pkg:" + t)
+    # (b3) feature libraries (name clashes, redeclaration, extends chains, deep modifications)
+    for lib in feature_libs(ctx.subrng("feat"), ctx.n(200, 6000)):
+        if ctx.out_of_time():
+            break
+        cl = lib.classes
+        seq = [(rng.choice(KINDS + ["casadi", "flatten"]), rng.choice(cl)) for _ in range(rng.randint(2, 6 if ctx.tier == "thorough" else 4))]
+        ok = ctx.guarded(run_sequence, ctx, lib, seq, "feature-library", timeout=120)
+        ctx.case({"t": lib.texts, "s": seq}, bool(ok), None)
+        for t in lib.tags:
+            ctx.cover("feat:" + t)
+        if rng.random() < 0.15:
+            ctx.guarded(cli_check, ctx, lib, rng.sample(cl, 2), ctx.cases, timeout=120)
     # (c) CLI on test models as well
     for lib in work[:6]:
         if ctx.out_of_time() or len(lib.classes) < 2:
